@@ -14,15 +14,18 @@ import (
 	"fmt"
 	"io"
 	"math"
+	"net"
 	"os"
 	"os/exec"
 	"path/filepath"
 	"strings"
 	"sync"
 	"sync/atomic"
+	"syscall"
 	"time"
 
 	"go.etcd.io/etcd/api/v3/etcdserverpb"
+	"google.golang.org/grpc"
 	"google.golang.org/grpc/metadata"
 
 	proto "github.com/kubewharf/kubebrain-client/api/v2rpc"
@@ -138,12 +141,28 @@ func (f *fakeStream) RecvMsg(m interface{}) error  { return io.EOF }
 
 type etcdWatchStream struct {
 	fakeStream
-	in      chan *etcdserverpb.WatchRequest
-	mu      sync.Mutex
-	sent    int
-	failAt  int // Send fails from this message on (0 = never)
-	sending int32
-	overlap int32 // Send called while another Send was in progress
+	in       chan *etcdserverpb.WatchRequest
+	mu       sync.Mutex
+	sent     int
+	failAt   int // Send fails from this message on (0 = never)
+	sending  int32
+	overlap  int32 // Send called while another Send was in progress
+	created  []int64
+	canceled map[int64]int // Canceled responses with CompactRevision == 0, per watch id
+}
+
+func (s *etcdWatchStream) createdID() (int64, bool) {
+	s.mu.Lock()
+	defer s.mu.Unlock()
+	if len(s.created) == 0 {
+		return 0, false
+	}
+	return s.created[0], true
+}
+func (s *etcdWatchStream) canceledFor(id int64) int {
+	s.mu.Lock()
+	defer s.mu.Unlock()
+	return s.canceled[id]
 }
 
 func (s *etcdWatchStream) Recv() (*etcdserverpb.WatchRequest, error) {
@@ -165,6 +184,15 @@ func (s *etcdWatchStream) Send(r *etcdserverpb.WatchResponse) error {
 	s.mu.Lock()
 	defer s.mu.Unlock()
 	s.sent++
+	if r.Created {
+		s.created = append(s.created, r.WatchId)
+	}
+	if r.Canceled && r.CompactRevision == 0 {
+		if s.canceled == nil {
+			s.canceled = map[int64]int{}
+		}
+		s.canceled[r.WatchId]++
+	}
 	if s.failAt > 0 && s.sent >= s.failAt {
 		return fmt.Errorf("send failed (injected)")
 	}
@@ -245,6 +273,14 @@ type genReq struct {
 	Kind  string
 	Run   func(n *node) (isErr bool)
 	Extra int64 // revisions the scenario itself allocates on top of the request (none so far)
+	List  *listObs
+}
+
+// what a list-shaped response contained
+type listObs struct {
+	Set   bool
+	Count int64
+	More  bool
 }
 
 var keyPool = [][]byte{
@@ -258,36 +294,48 @@ var valPool = [][]byte{nil, {}, []byte("v"), []byte("tombstone"), {0xff}, []byte
 func genKey(r *lib.Rand) []byte { return keyPool[r.Intn(len(keyPool))] }
 func genVal(r *lib.Rand) []byte { return valPool[r.Intn(len(valPool))] }
 
+// numeric pool shared by revisions and limits: boundaries of int64/uint64 (and their images under the
+// signed<->unsigned casts of the shims), powers of two in the range where a value used as an allocation
+// size would ask for gigabytes to terabytes, and small values
+var numPool = []int64{
+	0, 1, 2, 3, -1, -2, math.MinInt64, math.MinInt64 + 1, math.MaxInt64, math.MaxInt64 - 1, 1 << 62, 1<<62 + 1, -(1 << 62),
+	1 << 31, 1<<31 - 1, 1 << 32, 1<<32 + 1, 1 << 33, 1 << 34, 1 << 36, 1 << 38, 1 << 40, 1 << 42, 1 << 44, 1 << 48, 1 << 56,
+}
+
+func genNum(r *lib.Rand) int64 {
+	if r.Chance(1, 5) {
+		return int64(1) << uint(33+r.Intn(12)) // 1<<33 .. 1<<44
+	}
+	return numPool[r.Intn(len(numPool))]
+}
+
 func genRevI(r *lib.Rand, cur uint64) int64 {
 	switch r.Intn(12) {
-	case 0:
-		return 0
-	case 1:
-		return 1
-	case 2:
-		return -1
-	case 3:
-		return math.MinInt64
+	case 0, 1, 2, 3:
+		return genNum(r)
 	case 4:
-		return math.MaxInt64
-	case 5:
 		return int64(cur) + 1000000 // far future
-	case 6:
+	case 5:
 		return int64(cur)
-	case 7:
+	case 6:
 		return int64(cur) - int64(r.Intn(20))
-	case 8:
+	case 7:
 		return int64(cur) + 1
-	case 9:
+	case 8:
 		return etcd.GetPartitionMagic
-	case 10:
+	case 9:
 		return -int64(cur)
+	case 10:
+		return -int64(cur) - int64(r.Intn(3)) + 1
 	default:
 		return int64(r.Intn(50))
 	}
 }
 func genLimit(r *lib.Rand) int64 {
-	return []int64{0, 1, -1, math.MaxInt64, math.MinInt64, 2, 3}[r.Intn(7)]
+	if r.Chance(1, 3) {
+		return int64(r.Intn(4))
+	}
+	return genNum(r)
 }
 
 func coqOp(o *etcdserverpb.RequestOp) string {
@@ -425,6 +473,7 @@ func genRequest(r *lib.Rand, cur uint64) genReq {
 	ri := genRevI(r, cur)
 	ru := uint64(ri)
 	lim := genLimit(r)
+	lo := &listObs{}
 	switch r.Intn(14) {
 	case 0:
 		return genReq{Kind: "brain.Create", Coq: lib.App("BCreate", lib.Bytes(k), lib.Bytes(v)), JSON: js("api", "brain.Create", "key", k, "value", v),
@@ -465,8 +514,12 @@ func genRequest(r *lib.Rand, cur uint64) genReq {
 	case 5:
 		return genReq{Kind: "brain.Range", Coq: lib.App("BRange", lib.Bytes(k), lib.Bytes(e), lib.N(ru), lib.Z(lim)),
 			JSON: js("api", "brain.Range", "key", k, "end", e, "revision", ru, "limit", lim),
+			List: lo,
 			Run: func(n *node) bool {
-				_, err := n.bs.Range(ctx, &proto.RangeRequest{Key: k, End: e, Revision: ru, Limit: lim})
+				resp, err := n.bs.Range(ctx, &proto.RangeRequest{Key: k, End: e, Revision: ru, Limit: lim})
+				if err == nil && resp != nil {
+					*lo = listObs{true, int64(len(resp.Kvs)), resp.More}
+				}
 				return err != nil
 			}}
 	case 6:
@@ -502,8 +555,12 @@ func genRequest(r *lib.Rand, cur uint64) genReq {
 		co := r.Chance(1, 4)
 		return genReq{Kind: "etcd.Range", Coq: lib.App("ERange", lib.Bytes(k), lib.Bytes(e), lib.Z(ri), lib.Z(lim), lib.Bool(co)),
 			JSON: js("api", "etcd.Range", "key", k, "range_end", e, "revision", ri, "limit", lim, "count_only", co),
+			List: lo,
 			Run: func(n *node) bool {
-				_, err := n.es.Range(ctx, &etcdserverpb.RangeRequest{Key: k, RangeEnd: e, Revision: ri, Limit: lim, CountOnly: co})
+				resp, err := n.es.Range(ctx, &etcdserverpb.RangeRequest{Key: k, RangeEnd: e, Revision: ri, Limit: lim, CountOnly: co})
+				if err == nil && resp != nil && len(e) > 0 && ri != etcd.GetPartitionMagic && !co {
+					*lo = listObs{true, int64(len(resp.Kvs)), resp.More}
+				}
 				return err != nil
 			}}
 	case 11, 12:
@@ -536,7 +593,7 @@ func corpus(cur uint64) []genReq {
 	ctx := context.Background()
 	var out []genReq
 	// 83355f7: etcd update with a negative mod-revision (cast to a huge unsigned expected revision)
-	for _, rev := range []int64{-5, math.MinInt64, int64(cur) + 1 << 40} {
+	for _, rev := range []int64{-5, math.MinInt64, int64(cur) + 1<<40} {
 		rev := rev
 		k := []byte("/registry/a")
 		t := &etcdserverpb.TxnRequest{Compare: []*etcdserverpb.Compare{cmpMod(k, rev)},
@@ -578,6 +635,31 @@ func corpus(cur uint64) []genReq {
 				return err != nil
 			}})
 	}
+	// limits that must never be used as an allocation size: MaxInt64-1 and 1<<62 (makeslice: cap out of range
+	// if they were), 1<<33 / 1<<40 (giga- to terabytes if they were); MaxInt64 itself overflows to "unlimited"
+	for _, lim := range []int64{math.MaxInt64 - 1, 1 << 62, 1 << 40, 1 << 33, math.MaxInt64, math.MinInt64} {
+		lim := lim
+		k, e := []byte("/registry/"), []byte("/registry0")
+		lo1, lo2 := &listObs{}, &listObs{}
+		out = append(out, genReq{Kind: "corpus.etcd.Range.limit", Coq: lib.App("ERange", lib.Bytes(k), lib.Bytes(e), "0%Z", lib.Z(lim), "false"),
+			JSON: js("api", "etcd.Range", "key", k, "range_end", e, "revision", 0, "limit", lim, "corpus", "seed C20-2"), List: lo1,
+			Run: func(n *node) bool {
+				resp, err := n.es.Range(ctx, &etcdserverpb.RangeRequest{Key: k, RangeEnd: e, Limit: lim})
+				if err == nil && resp != nil {
+					*lo1 = listObs{true, int64(len(resp.Kvs)), resp.More}
+				}
+				return err != nil
+			}})
+		out = append(out, genReq{Kind: "corpus.brain.Range.limit", Coq: lib.App("BRange", lib.Bytes(k), lib.Bytes(e), "0", lib.Z(lim)),
+			JSON: js("api", "brain.Range", "key", k, "end", e, "revision", 0, "limit", lim, "corpus", "seed C20-2"), List: lo2,
+			Run: func(n *node) bool {
+				resp, err := n.bs.Range(ctx, &proto.RangeRequest{Key: k, End: e, Limit: lim})
+				if err == nil && resp != nil {
+					*lo2 = listObs{true, int64(len(resp.Kvs)), resp.More}
+				}
+				return err != nil
+			}})
+	}
 	// nil Kv
 	out = append(out, genReq{Kind: "corpus.brain.Update.nilkv", Coq: lib.App("BUpdate", "false", "[]", "[]", "0"), JSON: js("api", "brain.Update", "kv_present", false),
 		Run: func(n *node) bool { _, err := n.bs.Update(ctx, &proto.UpdateRequest{}); return err != nil }})
@@ -595,9 +677,16 @@ type logLine struct {
 	Health   bool                   `json:"health"`
 	Progress bool                   `json:"progress"`
 	Note     string                 `json:"note,omitempty"`
+	List     *listObs               `json:"list,omitempty"`
+	// phase "cancel": one pure watch on an etcd stream, ended by a client cancel request (or not)
+	ClientCancel bool `json:"client_cancel,omitempty"`
+	Canceled     int  `json:"canceled,omitempty"`
 }
 
 func childReq(engine string, seed uint64, count int, logPath, scratch string) {
+	// an address-space ceiling: a request that makes the node ask for a giant buffer fails at once
+	// (fatal out-of-memory = process exit, an observation) instead of loading the machine
+	_ = syscall.Setrlimit(syscall.RLIMIT_AS, &syscall.Rlimit{Cur: 24 << 30, Max: 24 << 30})
 	backend.VerifYieldHook = func(p string) {
 		if p == "seq.idle" {
 			time.Sleep(50 * time.Microsecond)
@@ -659,6 +748,37 @@ func childReq(engine string, seed uint64, count int, logPath, scratch string) {
 		wr(logLine{I: -1, Phase: "done", Outcome: "setup-failed", Note: "initial probe failed"})
 		os.Exit(3)
 	}
+	// how many Canceled responses (CompactRevision 0) one pure watch gets: with and without a client cancel request
+	for _, clientCancel := range []bool{true, false, true} {
+		c, cancel := context.WithCancel(ctx)
+		ws := &etcdWatchStream{fakeStream: fakeStream{c}, in: make(chan *etcdserverpb.WatchRequest, 4)}
+		done := make(chan struct{})
+		go func() {
+			defer func() { _ = recover() }()
+			_ = n.es.Watch(ws)
+			close(done)
+		}()
+		ws.in <- &etcdserverpb.WatchRequest{RequestUnion: &etcdserverpb.WatchRequest_CreateRequest{CreateRequest: &etcdserverpb.WatchCreateRequest{Key: []byte("/registry/")}}}
+		var id int64
+		okID := lib.WaitUntil(3*time.Second, func() bool { var ok bool; id, ok = ws.createdID(); return ok })
+		time.Sleep(10 * time.Millisecond)
+		if okID && clientCancel {
+			ws.in <- &etcdserverpb.WatchRequest{RequestUnion: &etcdserverpb.WatchRequest_CancelRequest{CancelRequest: &etcdserverpb.WatchCancelRequest{WatchId: id}}}
+			time.Sleep(30 * time.Millisecond)
+		}
+		close(ws.in)
+		select {
+		case <-done:
+		case <-time.After(5 * time.Second):
+		}
+		cancel()
+		if okID {
+			wr(logLine{I: -2, Phase: "cancel", ClientCancel: clientCancel, Canceled: ws.canceledFor(id)})
+		}
+	}
+	if p2, ok2, prog2 := probe(); ok2 && prog2 {
+		last = p2
+	}
 	r := lib.NewRand(seed)
 	reqs := corpus(last)
 	i := 0
@@ -695,7 +815,11 @@ func childReq(engine string, seed uint64, count int, logPath, scratch string) {
 		} else {
 			last = rev
 		}
-		wr(logLine{I: i, Phase: "done", Outcome: outcome, Alloc: alloc, Health: health, Progress: prog, Note: note})
+		dl := logLine{I: i, Phase: "done", Outcome: outcome, Alloc: alloc, Health: health, Progress: prog, Note: note}
+		if g.List != nil && g.List.Set && outcome == "OResp" {
+			dl.List = g.List
+		}
+		wr(dl)
 		i++
 		if outcome == "OWedge" || !prog {
 			os.Exit(4) // the node is no longer usable: stop here, the parent reports it
@@ -708,6 +832,86 @@ func childReq(engine string, seed uint64, count int, logPath, scratch string) {
 		runOne(genRequest(r, n.b.GetCurrentRevision()))
 	}
 	lf.Close()
+	os.Exit(0)
+}
+
+// ---------- child: a follower that forwards watches through its etcd proxy ----------
+
+// Two nodes on one storage engine, as two KubeBrain processes on one TiKV: L wins the election and serves
+// the etcd API on a loopback gRPC listener (its identity is that address), F stays follower with
+// --enable-etcd-proxy. The client talks to F only: WatchCreateRequest, then WatchCancelRequest for the
+// watch id it was given, again and again. F forwards the watch to L with the etcd client library; L answers
+// a cancelled watch with two Canceled responses, and the second one can make the library panic inside F.
+func childProxy(maxIter int, budget time.Duration, logPath, scratch string) {
+	backend.VerifYieldHook = func(p string) {
+		if p == "seq.idle" {
+			time.Sleep(200 * time.Microsecond)
+		}
+	}
+	lf, _ := os.Create(logPath)
+	note := func(format string, a ...interface{}) { fmt.Fprintf(lf, format+"\n", a...) }
+	lis, err := net.Listen("tcp", "127.0.0.1:0")
+	if err != nil {
+		note("SETUP-FAILED no loopback listener: %v", err)
+		os.Exit(3)
+	}
+	kv, _, err := lib.NewEngine(lib.EngMem, scratch)
+	if err != nil {
+		note("SETUP-FAILED %v", err)
+		os.Exit(3)
+	}
+	m := kbprom.NewMetrics(metrics.Tag("cluster", "verif"))
+	mk := func(identity string, proxy bool) (*etcd.RPCServer, service.PeerService) {
+		b := backend.NewBackend(kv, backend.Config{Prefix: "/registry", Identity: identity, EnableEtcdCompatibility: true}, m)
+		le := leader.NewLeaderElection(b, m, func(context.Context) {}, func() {})
+		peers := service.NewPeerService(le, m, b, service.Config{EnableEtcdProxy: proxy})
+		es := etcd.New(b, m, peers)
+		_ = brain.New(b, m, peers) // starts the campaign
+		return es, peers
+	}
+	esL, peersL := mk(lis.Addr().String(), false)
+	if !lib.WaitUntil(10*time.Second, func() bool { return peersL.IsLeader() }) {
+		note("SETUP-FAILED L did not become leader")
+		os.Exit(3)
+	}
+	srv := grpc.NewServer()
+	esL.Register(srv)
+	go func() { _ = srv.Serve(lis) }()
+	esF, peersF := mk("127.0.0.1:1", true)
+	// F's proxy is connected once a forwarded watch can be created
+	ready := lib.WaitUntil(15*time.Second, func() bool {
+		c, cancel := context.WithTimeout(context.Background(), 200*time.Millisecond)
+		defer cancel()
+		_, err := peersF.Watch(c, "/registry/", 0)
+		return err == nil
+	})
+	if !ready || peersF.IsLeader() {
+		note("SETUP-FAILED follower proxy not ready (ready=%v, follower leads=%v)", ready, peersF.IsLeader())
+		os.Exit(3)
+	}
+	note("READY leader=%s", lis.Addr().String())
+	deadline := time.Now().Add(budget)
+	for it := 0; it < maxIter && time.Now().Before(deadline); it++ {
+		c, cancel := context.WithCancel(context.Background())
+		ws := &etcdWatchStream{fakeStream: fakeStream{c}, in: make(chan *etcdserverpb.WatchRequest, 4)}
+		done := make(chan struct{})
+		go func() { _ = esF.Watch(ws); close(done) }()
+		ws.in <- &etcdserverpb.WatchRequest{RequestUnion: &etcdserverpb.WatchRequest_CreateRequest{CreateRequest: &etcdserverpb.WatchCreateRequest{Key: []byte("/registry/")}}}
+		var id int64
+		if lib.WaitUntil(2*time.Second, func() bool { var ok bool; id, ok = ws.createdID(); return ok }) {
+			time.Sleep(time.Duration(it%4) * time.Millisecond)
+			ws.in <- &etcdserverpb.WatchRequest{RequestUnion: &etcdserverpb.WatchRequest_CancelRequest{CancelRequest: &etcdserverpb.WatchCancelRequest{WatchId: id}}}
+		}
+		time.Sleep(2 * time.Millisecond)
+		close(ws.in)
+		select {
+		case <-done:
+		case <-time.After(3 * time.Second):
+		}
+		cancel()
+		note("ITER %d", it+1)
+	}
+	note("SURVIVED")
 	os.Exit(0)
 }
 
@@ -754,12 +958,12 @@ func runEmitChild(dir string, id int, job EmitJob) ([]bool, error) {
 }
 
 type tableRow struct {
-	Site   int     `json:"site"`
-	Pos    string  `json:"pos"`
-	Func   string  `json:"func"`
+	Site   int      `json:"site"`
+	Pos    string   `json:"pos"`
+	Func   string   `json:"func"`
 	Chain  []string `json:"chain"`
-	Kind   string  `json:"kind"`
-	Name   *string `json:"name"`
+	Kind   string   `json:"kind"`
+	Name   *string  `json:"name"`
 	Labels []struct {
 		Name   string   `json:"name"`
 		Class  string   `json:"class"`
@@ -854,6 +1058,7 @@ func main() {
 	out := flag.String("out", "", "internal")
 	engine := flag.String("engine", lib.EngMem, "internal")
 	count := flag.Int("count", 100, "internal")
+	budget := flag.Duration("budget", 10*time.Second, "internal")
 	lib.QuietLogs()
 	args := lib.ParseArgs()
 	switch *child {
@@ -862,6 +1067,9 @@ func main() {
 		return
 	case "req":
 		childReq(*engine, args.Seed, *count, *out, args.Scratch)
+		return
+	case "proxy":
+		childProxy(*count, *budget, *out, args.Scratch)
 		return
 	}
 
@@ -1032,6 +1240,13 @@ func main() {
 		var order []int
 		dones := map[int]logLine{}
 		for _, l := range lines {
+			if l.Phase == "cancel" {
+				oc := fmt.Sprintf("cancel-responses-%d", l.Canceled)
+				w.Add(lib.Case{Kind: "watch-cancel", Coq: lib.App("KCancel", lib.Bool(l.ClientCancel), lib.N(uint64(l.Canceled))),
+					JSON: map[string]interface{}{"engine": eng, "api": "etcd.Watch", "sequence": "WatchCreateRequest{key:/registry/} ; " + map[bool]string{true: "WatchCancelRequest{watch_id} ; ", false: ""}[l.ClientCancel] + "end of stream",
+						"canceled_responses_with_compact_revision_0": l.Canceled}, Outcomes: []string{oc}})
+				continue
+			}
 			if l.Phase == "start" {
 				starts[l.I] = l
 				order = append(order, l.I)
@@ -1062,6 +1277,12 @@ func main() {
 			if d.Note != "" {
 				s.Req["note"] = d.Note
 			}
+			lst := "None"
+			if d.List != nil {
+				lst = lib.Some(lib.Pair(lib.Z(d.List.Count), lib.Bool(d.List.More)))
+				s.Req["returned"] = d.List.Count
+				s.Req["more"] = d.List.More
+			}
 			if !finished || d.Outcome == "OPanic" || d.Outcome == "OWedge" || !d.Health || !d.Progress {
 				// the request log up to here is the replay
 				var logTail []map[string]interface{}
@@ -1081,7 +1302,7 @@ func main() {
 				}
 				s.Req["preceding_requests"] = logTail
 			}
-			w.Add(lib.Case{Kind: "req:" + strings.TrimPrefix(s.Kind, "corpus."), Coq: lib.App("KReq", s.Coq, d.Outcome, lib.Z(d.Alloc), lib.Bool(d.Health), lib.Bool(d.Progress)),
+			w.Add(lib.Case{Kind: "req:" + strings.TrimPrefix(s.Kind, "corpus."), Coq: lib.App("KReq", s.Coq, d.Outcome, lib.Z(d.Alloc), lib.Bool(d.Health), lib.Bool(d.Progress), lst),
 				JSON: s.Req, Trivial: false, Outcomes: []string{eng + ":" + d.Outcome}})
 		}
 		if len(order) == 0 {
